@@ -154,6 +154,42 @@ func (e *Engine) installExternals() {
 		itf := a[0].(Iface)
 		return RValue{T: itf.T, V: itf.V}
 	}
+	x["reflect.New"] = func(fr *frame, a []Value) Value {
+		t := a[0].(Iface).V.(RType).T
+		cell := new(Value)
+		*cell = zero(t)
+		return RValue{T: types.NewPointer(t), V: cell}
+	}
+	x["reflect.Zero"] = func(fr *frame, a []Value) Value {
+		t := a[0].(Iface).V.(RType).T
+		return RValue{T: t, V: zero(t)}
+	}
+	x["(reflect.Value).Interface"] = func(fr *frame, a []Value) Value {
+		rv := a[0].(RValue)
+		if rv.T == nil {
+			e.rtPanic("reflect: call of reflect.Value.Interface on zero Value")
+		}
+		if _, isI := rv.T.Underlying().(*types.Interface); isI {
+			return rv.V
+		}
+		return Iface{T: rv.T, V: rv.V}
+	}
+	x["(reflect.Value).Elem"] = func(fr *frame, a []Value) Value {
+		rv := a[0].(RValue)
+		switch u := rv.T.Underlying().(type) {
+		case *types.Pointer:
+			p := rv.V.(*Value)
+			if p == nil {
+				return RValue{}
+			}
+			return RValue{T: u.Elem(), V: e.load(p, nil)}
+		case *types.Interface:
+			itf := rv.V.(Iface)
+			return RValue{T: itf.T, V: itf.V}
+		}
+		e.rtPanic("reflect: call of reflect.Value.Elem on non-pointer Value")
+		return nil
+	}
 	x["(reflect.Value).Pointer"] = func(fr *frame, a []Value) Value {
 		rv := a[0].(RValue)
 		return e.pointerID(rv.V)
@@ -484,6 +520,9 @@ func (e *Engine) installIntrinsics() {
 			return v
 		}
 		return a[1]
+	}
+	in["vRank"] = func(fr *frame, a []Value) Value {
+		return e.simplify(e.ts.mk(sortInt, "vrank", e.strTerm(a[0])), nil)
 	}
 	in["vGoID"] = func(fr *frame, a []Value) Value { return int64(fr.g.id) }
 	in["vDoc"] = func(fr *frame, a []Value) Value { return e.symbolicDoc(a[0].(string)) }
